@@ -176,12 +176,18 @@ def out_repr(bs, full=False):
 # ---------------------------------------------------------------- material
 
 def gen_material(kind, seed, n):
-    p = subprocess.run([LZMODEL, "gen", kind, str(seed), str(n)], capture_output=True, text=True,
-                       timeout=3600)
-    if p.returncode != 0:
-        raise BuildError("generator failed: " + p.stderr[-2000:])
+    if kind == "lzma2big":
+        # expensive to generate (a quarter of a million symbols): kept as a committed corpus file,
+        # produced by `lzmodel gen lzma2big 1 2 > corpus/lzma2big.txt`
+        text = open(os.path.join(ROOT, "corpus", "lzma2big.txt")).read()
+    else:
+        p = subprocess.run([LZMODEL, "gen", kind, str(seed), str(n)], capture_output=True, text=True,
+                           timeout=3600)
+        if p.returncode != 0:
+            raise BuildError("generator failed: " + p.stderr[-2000:])
+        text = p.stdout
     mats = []
-    for line in p.stdout.splitlines():
+    for line in text.splitlines():
         if not line.startswith("mat "):
             continue
         d = {}
@@ -193,7 +199,17 @@ def gen_material(kind, seed, n):
             if k in d:
                 d[k] = int(d[k])
         d["payload"] = bytes.fromhex(d.get("payload", ""))
-        d["out"] = bytes.fromhex(d.get("out", ""))
+        if "outrle" in d:
+            out = b""
+            for part in d["outrle"].split("+"):
+                if "*" in part:
+                    b, n = part.split("*")
+                    out += bytes.fromhex(b) * int(n)
+                else:
+                    out += bytes.fromhex(part)
+            d["out"] = out
+        else:
+            d["out"] = bytes.fromhex(d.get("out", ""))
         mats.append(d)
     return mats
 
@@ -263,7 +279,9 @@ def pad4(n):
 
 class XzBlock:
     def __init__(self, payload, out, decl_packed=False, decl_unpacked=False, extra_pad_words=0,
-                 widths=None, filter_id=0x21, flags_extra=0, props=b"\x16", nfilters=1):
+                 widths=None, filter_id=0x21, flags_extra=0, props=b"\x16", nfilters=1,
+                 unpacked_override=None, packed_override=None):
+        self.unpacked_override, self.packed_override = unpacked_override, packed_override
         self.payload, self.out = payload, out
         self.decl_packed, self.decl_unpacked = decl_packed, decl_unpacked
         self.extra_pad_words = extra_pad_words
@@ -294,10 +312,10 @@ def build_xz(check_id, blocks, rec=None, index_records=None):
         fo = {}
         if b.decl_packed:
             fo["packed"] = len(body)
-            body += mb(len(b.payload), b.widths.get("packed"))
+            body += mb(len(b.payload) if b.packed_override is None else b.packed_override, b.widths.get("packed"))
         if b.decl_unpacked:
             fo["unpacked"] = len(body)
-            body += mb(len(b.out), b.widths.get("unpacked"))
+            body += mb(len(b.out) if b.unpacked_override is None else b.unpacked_override, b.widths.get("unpacked"))
         for _ in range(b.nfilters):
             fo["filter_id"] = len(body)
             body += mb(b.filter_id, b.widths.get("filter_id"))
@@ -306,6 +324,7 @@ def build_xz(check_id, blocks, rec=None, index_records=None):
         total = 1 + len(body) + 4
         total += pad4(total)
         total += 4 * b.extra_pad_words
+        total = min(total, 1024) if 1 + len(body) + 4 <= 1024 else total     # header size byte <= 0xFF
         hs = total // 4 - 1
         hdr = bytes([hs]) + bytes(body) + b"\x00" * (total - 4 - 1 - len(body))
         off["b%d_hs" % bi] = (start, 1)
